@@ -2,7 +2,7 @@
 // Each generator returns Gallina text and a list of translation errors.  On errors the generated
 // file contains a deliberately ill-typed definition so the dependent proofs fail (broken tie),
 // and the messages are written to <out>/<name>.errors.
-package main
+package g2c
 
 import (
 	"flag"
@@ -13,15 +13,14 @@ import (
 	"strings"
 )
 
-type generator func(repo string) (string, []string)
+type Generator func(repo string) (string, []string)
 
-var generators = map[string]generator{}
+var generators = map[string]Generator{}
 
-func register(name string, g generator) { generators[name] = g }
+func Register(name string, g Generator) { generators[name] = g }
 
-func init() { register("GenArith", genArith) }
-
-func main() {
+// Main runs all registered generators: go2coq-<x> -repo DIR -out DIR
+func Main() {
 	repo := flag.String("repo", "/repo", "gojq source tree")
 	out := flag.String("out", "", "output directory (coq/gen)")
 	only := flag.String("only", "", "comma-separated generator names (default all)")
